@@ -97,12 +97,12 @@ class Project(object):
                 for s in SUFFIXES:
                     if name.endswith(s):
                         mname = name[:-len(s)]
-                        if mname == '__init__':
-                            continue
-                        modules.add(mname)
+                        # 'a.b.py' or 'x.cpython-311-x86_64-linux-gnu.so' cannot be imported as 'a.b'
+                        if mname and mname != '__init__' and '.' not in mname:
+                            modules.add(mname)
                         break
                 else:
-                    if os.path.exists(os.path.join(pdir, name, '__init__.py')):
+                    if '.' not in name and os.path.exists(os.path.join(pdir, name, '__init__.py')):
                         modules.add(name)
 
         return modules
